@@ -118,7 +118,7 @@ EnumOutcome(e, profile) ==
   ELSE IF gt /\ ~conditional THEN "error"                                    \* TooManyVariants
   ELSE IF e.exh = "true" /\ ~eq THEN "error"                                 \* Exhaustive{..}
   ELSE IF e.exh \in {"false", "omitted"} /\ eq THEN "error"                  \* NotExhaustive{..}
-  ELSE IF \E k \in 1..count : e.variants[k].form # "lit" THEN "error"        \* Missing / NonLit discriminant
+  ELSE IF \E k \in 1..count : e.variants[k].form \notin LitForms THEN "error"  \* Missing / NonLit discriminant (base10_parse reads every radix)
   ELSE IF \E k \in 1..count : ~(ESet(e.variants[k].d) \subseteq 0..(e.n - 1)) THEN "error"   \* max_discr >= max_count
   ELSE IF e.n \notin 1..64 THEN "error"                                      \* BAD_SIZE
   ELSE "accept"
